@@ -163,10 +163,16 @@ def run(ctx):
         ctx.case_done(tuple(lines), nontrivial=any('kill:' in l for l in lines))
     for cfg, script in c01.CORPUS:
         add(*one_history(ctx, rng, len(script), cfg, script))
-    for _ in range(ctx.n(5000, 100000)):
-        add(*one_history(ctx, rng, rng.choice([8, 15, 30, 50])))
-    ctx.sample({'case': cases[-1][0], 'ops': cases[-1][1][:8], 'impl': impls[-1][:8]})
-    ctx.correspond('proc', cases, impls)
+    total = ctx.n(5000, 60000)
+    done = 0
+    while done < total:             # in chunks, so that a thorough run does not hold every trace in memory
+        for _ in range(min(5000, total - done)):
+            add(*one_history(ctx, rng, rng.choice([8, 15, 30, 50])))
+        done += 5000
+        if done <= 5000:
+            ctx.sample({'case': cases[-1][0], 'ops': cases[-1][1][:8], 'impl': impls[-1][:8]})
+        ctx.correspond('proc', cases, impls)
+        del cases[:], impls[:]
 
 
 def replay(ctx, data):
